@@ -50,6 +50,15 @@ func newCtx(repo, verif string) (*Ctx, error) {
 	if err != nil {
 		return nil, err
 	}
+	// property imports
+	if ms, _ := filepath.Glob(filepath.Join(verif, "props", "*.json")); ms != nil {
+		for _, m := range ms {
+			var cfg PropConfig
+			if readJSON(m, &cfg) == nil && len(cfg.Uses) > 0 {
+				propUses[strings.TrimSuffix(filepath.Base(m), ".json")] = cfg.Uses
+			}
+		}
+	}
 	S := newSpecSet()
 	for _, f := range specFiles(repo, verif) {
 		if err := S.loadFile(f); err != nil {
@@ -182,7 +191,26 @@ func main() {
 				fmt.Println(k, ": no such function")
 				continue
 			}
-			fmt.Println(k, ":", strings.Join(c.Frames.modsOf(fn), " "))
+			fmt.Println(k, ":")
+			locs := c.Frames.locsOf(fn)
+			for _, n := range c.Frames.modsOf(fn) {
+				l := locs[n]
+				d := ""
+				if l.all {
+					d = "anywhere"
+				} else {
+					var ps []int
+					for i := range l.params {
+						ps = append(ps, i)
+					}
+					sort.Ints(ps)
+					d = fmt.Sprintf("params%v", ps)
+					if l.fresh {
+						d += "+fresh"
+					}
+				}
+				fmt.Printf("   %-50s %s\n", n, d)
+			}
 		}
 		os.Exit(0)
 	}
